@@ -272,7 +272,10 @@ func C06(tier string) int {
 		if hi > len(cases) {
 			hi = len(cases)
 		}
-		type viol struct{ key, what string; rep M }
+		type viol struct {
+			key, what string
+			rep       M
+		}
 		var vs []viol
 		outc := map[string]int{}
 		classes := map[string]struct{}{}
